@@ -90,18 +90,12 @@ GEN_RULE = ("marker texts from a grammar over well-defined atoms (string variabl
             "occurring in the operands; distinct = (operation, operand classes, result class, shared variables)")
 C02_EXPL = ("theorems C02_and / C02_or / C02_empty_any / C02_parse / C02_normaliser over Model/Marker.v (every fuel, every set order, every sound version-atom merge); "
             "the S-mark stream ties the model to the code, S-vmerge-rows checks the merge hypothesis on the implementation, and the direct oracle searches for a failing input end to end")
-PENDING = ("the Coq model of the marker normaliser is not finished: this check currently decides the property only by the direct "
-           "oracle on the implementation; see DESIGN.md section 5 for the theorem it will be replaced by")
-
 REGISTRY.update({
     "C02": marker_runner(pm.oracle_c02, 500, 8000, GEN_RULE, C02_EXPL, smark_pairs=150, proof=("Props/C02.v", C02_THEOREMS)),
     "C03": marker_runner(pm.oracle_c03, 700, 10000, GEN_RULE,
                          "theorem C03_parse: the marker _build_markers returns evaluates, in every environment, as packaging's _evaluate_markers fold (pkg_eval, verbatim) of the parsed tree, provided atoms evaluate alike; "
                          "atom evaluation is the model parameter atom_eval (strings / extras / reversed operands modelled and compared by MCEval cases; version-like atoms a table) and is compared with packaging by the direct oracle",
                          smark_pairs=60, proof=("Props/C03.v", ["C03_parse", "pkg_eval_peval"]), n_parse=250),
-    "C07": marker_runner(pm.oracle_c07, 300, 5000, GEN_RULE, PENDING),
-    "C10": marker_runner(pm.oracle_c10, 250, 4000, "random histories of parse/&/| over key-equal spelling families followed by a probe; warm result vs result after cache_clear()", PENDING),
-    "C11_old": marker_runner(lambda ctx, n: pm.oracle_c11(ctx), 0, 0, "every operator x operand length x variable atom, every simple specifier as from_specifier input, interpreters X.Y.Z on a grid around the operands", PENDING),
     "C12": marker_runner(pm.oracle_c12, 250, 4000, GEN_RULE,
                          "proof: C12_only_vars / C12_exclude_vars (no variable outside names / never the removed variable, at any depth: an invariant through the whole normaliser), C12_only_implied / C12_only_identity / C12_only_wf "
                          "(only() is implied by the marker and equivalent to it when it mentions only the kept names), C12_exclude_identity (exclude() leaves the meaning unchanged on markers that do not mention the variable and have no contradictory conjunct / empty disjunction) over Model/Marker.v",
@@ -121,10 +115,6 @@ import props_tags as pt
 
 TAG_RULE = "see the oracle: the property's own configuration grid (C09) / tag universe x requires_python grid (C08) / EnvSpec grid (C16) / PEP 427 name grid (C18)"
 REGISTRY.update({
-    "C08": marker_runner(pt.oracle_c08, 0, 0, "python/abi tag universe (majors 2-3, minors 0-20 thorough, 10 minors quick; every implementation/gil setting; PEP 3149/703 ABI spellings) x requires_python grid; reference = some admitted interpreter X.Y.Z (packaging SpecifierSet) can load it", PENDING),
-    "C09": marker_runner(pt.oracle_c09, 0, 0, "the whole configuration grid of the property: manylinux 2.5..2.50 x 7 architectures, musllinux 1.1..1.5, macOS 10.4..10.16 and 11..30 x 2 architectures, Windows x 3; full lists compared with the PEP rule oracle and with packaging.tags (probes stubbed)", PENDING),
-    "C16": marker_runner(pt.oracle_c16, 0, 0, "pairs of EnvSpec over requires_python x platform x implementation; wheels from the tag universe", PENDING),
-    "C18": marker_runner(pt.oracle_c18, 0, 0, "PEP 427 names: name/version spellings x build tag x compressed tag sets x platform tags incl. ones ending in characters of '.whl'; platform strings of all documented families with multi-digit X_Y", PENDING),
 })
 
 
@@ -132,9 +122,6 @@ REGISTRY.update({
 import props_parse as pp
 
 REGISTRY.update({
-    "C17": marker_runner(pp.oracle_c17, 1500, 30000, "specifier texts over the public PEP 440 grammar (epochs, 1-5 release segments, every pre/post/dev spelling and separator, case, leading zeros, v prefix, whitespace), near-miss invalid strings and single-character mutations, || joins, <empty>; reference = packaging's SpecifierSet per alternative", PENDING),
-    "C06": marker_runner(pp.oracle_c06, 1200, 20000, "parsed specifiers (fixed list hitting every rendering heuristic + random texts) and random &,|,~ trees over them; distinct = (class, number of ranges, bound-shape class: pre/post/dev/epoch/length mismatch)", PENDING),
-    "C04": marker_runner(pp.oracle_c04, 1200, 20000, "expression trees over parsed leaves; candidates = 39 fixed final releases plus final releases around every bound of the result; reference = Boolean combination of packaging's SpecifierSet(leaf).contains(v)", PENDING),
 })
 
 
@@ -286,7 +273,6 @@ def run_c11(ctx: Ctx):
 
 
 REGISTRY["C11"] = run_c11
-del REGISTRY["C11_old"]
 
 
 def run_c07(ctx: Ctx):
